@@ -127,3 +127,32 @@ PROPS["C12"] = {
          "thorough": {"checks": 50, "shards": 4, "procs": 4, "timeout": 7200}},
     ],
 }
+
+PROPS["C19"] = {
+    "level": "exploration",
+    "technique": "exhaustive enumeration of a boundary grid derived at run time from FSINFO/PATHCONF, every request judged by the sequential reference oracle (limit <=> accept, exact read-back, no effect beyond)",
+    "level_text": "Limits are read from the running server, never hard-coded. Names of every length 1..name_max+2 and 200, 255, 256, 1000 go through CREATE, MKDIR, SYMLINK and as RENAME target; within the limit they must succeed and be found by LOOKUP and READDIR(PLUS) (also after a restart, when the name cache is rebuilt from disk), beyond it the request must fail and neither the name nor a truncation of it may exist. WRITEs of wtmax-4096..wtmax+4096 (dense at +-2) and wtpref+-1 at aligned and unaligned offsets in the direct, indirect and double-indirect ranges with all three stability levels must be accepted in full and read back, or refused without effect; READs up to and beyond rtmax; file ends at maxfilesize-4097..+4096, 2^32, 2^40, 2^63, 2^64-4096..2^64-1 through SETATTR and through WRITEs ending there, reads at the last byte, removal of maximum-size files with an exact space check, restarts in between. quick: one disk size, direct and RPC adapter; thorough: three disk sizes x both adapters x Unstable on/off.",
+    "level_note": "Exhaustive over the stated grid only (exhaustive: true refers to that grid). Disks are large enough that space is not the limiting factor.",
+    "rule": ("unit = one boundary request of the grid. Non-trivial: the request's name length / transfer size / file end is within 2 of an announced limit (name_max, wtmax, rtmax, maxfilesize) or above 2^62. "
+             "distinct = FNV hash of (grid configuration, request kind, value)."),
+    "assumptions": COMMON_ASSUMPTIONS,
+    "required_classes": ["boundary_requests", "requests_within_2_of_a_limit"],
+    "units": [
+        {"test": "^TestC19Grid$", "norapid": True, "quick": {"shards": 2}, "thorough": {"shards": 6}},
+    ],
+}
+
+PROPS["C08"] = {
+    "level": "exploration",
+    "technique": "model-based stateful PBT (rapid) with a handle registry oracle: reuse-heavy histories with restarts and crash recovery, stale sweeps over every procedure and handle position, inode-table exhaustion",
+    "level_text": "Histories of create/remove/mkdir/rmdir/rename-over-target cycles with frequent clean restarts (so inode numbers are reused within a few steps) and crash recoveries from a copy of the disk. Registry oracle: a handle issued for a new object was never issued before in the case; LOOKUP, READDIRPLUS and CREATE replies for a live object always carry its one handle, also after restart and recovery; a stale sweep presents a dead handle (preferring ones whose inode number is live again) to 25 procedure/argument positions incl. both directories of RENAME, FSINFO, PATHCONF, COMMIT - each must answer NFS3ERR_STALE and change nothing. Forged generations and garbage handles are mixed into all operations. One deterministic unit exhausts the inode table (32766 objects), frees everything, restarts, exhausts it again and checks that all 65k handles are distinct and the old ones stale.",
+    "level_note": "Unsupported procedures (MKNOD, LINK, FSSTAT, exclusive CREATE) answer NOTSUPP whatever the handle, and requests with '.'/'..' as a name are refused for the name: both are not counted as staleness failures. Sampled histories.",
+    "rule": ("unit = one generated history (plus the exhaustion run). Non-trivial: the history contains a stale sweep of a dead handle whose inode number (file id) belongs to a live object of another generation at that moment. "
+             "distinct = FNV hash of the history."),
+    "assumptions": COMMON_ASSUMPTIONS,
+    "required_classes": ["stale_sweeps_of_a_reused_inode_number", "crash_recoveries", "inode_exhaustion_files_created"],
+    "units": [
+        {"test": "^TestC08Handles$", "quick": {"checks": 100, "shards": 8, "steps": 40}, "thorough": {"checks": 1500, "shards": 12, "steps": 60}},
+        {"test": "^TestC08Exhaust$", "norapid": True, "quick": {"shards": 1}, "thorough": {"shards": 1}},
+    ],
+}
